@@ -9,6 +9,7 @@ from xitorch._impls.optimize.root.rootsolver import broyden1
 from xitorch._utils.bcast import normalize_bcast_dims, get_bcasted_dims
 from xitorch._utils.exceptions import ConvergenceWarning
 from xitorch._utils.types import get_np_dtype
+from xitorch._utils import verif_hooks as _vh
 
 __all__ = ["wrap_gmres", "cg", "bicgstab", "broyden1_solve", "exactsolve", "gmres"]
 
@@ -163,6 +164,9 @@ def cg(A: LinearOperator, B: torch.Tensor,
             if k < 10 or k % 10 == 0:
                 print("%4d: |dy|=%.3e" % (k, resid_norm))
 
+        if _vh.ENABLED:
+            _vh.emit("krylov.iter", method="cg", k=k, hit=bool(torch.all(resid_norm < stop_matrix)),
+                     improved=best_xk is xk_1)
         if torch.all(resid_norm < stop_matrix):
             converge = True
             break
@@ -187,6 +191,9 @@ def cg(A: LinearOperator, B: torch.Tensor,
     if col_swapped:
         # x: (ncols, *, nr, 1)
         xk_1 = xk_1.transpose(0, -1).squeeze(0)  # (*, nr, ncols)
+    if _vh.ENABLED:
+        _vh.emit("krylov.ret", method="cg", converged=converge, col_swapped=col_swapped, unswapped=col_swapped,
+                 max_niter=max_niter)
     return xk_1
 
 def bicgstab(A: LinearOperator, B: torch.Tensor,
@@ -307,6 +314,9 @@ def bicgstab(A: LinearOperator, B: torch.Tensor,
                 print("%4d: |dy|=%.3e" % (k, resid_norm))
 
         # check for the stopping conditions
+        if _vh.ENABLED:
+            _vh.emit("krylov.iter", method="bicgstab", k=k, hit=bool(torch.all(resid_norm < stop_matrix)),
+                     improved=best_xk is xk)
         if torch.all(resid_norm < stop_matrix):
             converge = True
             break
@@ -321,6 +331,9 @@ def bicgstab(A: LinearOperator, B: torch.Tensor,
     if col_swapped:
         # x: (ncols, *, nr, 1)
         xk = xk.transpose(0, -1).squeeze(0)  # (*, nr, ncols)
+    if _vh.ENABLED:
+        _vh.emit("krylov.ret", method="bicgstab", converged=converge, col_swapped=col_swapped, unswapped=col_swapped,
+                 max_niter=max_niter)
     return xk
 
 def gmres(A: LinearOperator, B: torch.Tensor,
@@ -420,6 +433,9 @@ def gmres(A: LinearOperator, B: torch.Tensor,
                 best_resid = max_resid_norm
                 best_res = res
 
+            if _vh.ENABLED:
+                _vh.emit("krylov.iter", method="gmres", k=k, hit=bool(torch.all(resid_norm < stop_matrix)),
+                         improved=best_res is res)
             if torch.all(resid_norm < stop_matrix):
                 converge = True
                 break
@@ -430,6 +446,9 @@ def gmres(A: LinearOperator, B: torch.Tensor,
         warnings.warn(ConvergenceWarning(msg))
 
     res = best_res
+    if _vh.ENABLED:
+        _vh.emit("krylov.ret", method="gmres", converged=converge, col_swapped=col_swapped, unswapped=False,
+                 max_niter=max_niter)
     return res
 
 
